@@ -9,7 +9,8 @@ NAN = float("nan")
 
 
 @st.composite
-def table(draw, max_rows=12, nan=True, min_rows=1, time_index=False, categorical=False):
+def table(draw, max_rows=12, nan=True, min_rows=1, time_index=False, categorical=False,
+          nan_keys=False):
     n = draw(st.integers(min_rows, max_rows))
     xv = st.integers(-12, 12).map(lambda k: k / 4.0)
     if nan and draw(st.booleans()):
@@ -18,6 +19,8 @@ def table(draw, max_rows=12, nan=True, min_rows=1, time_index=False, categorical
     # "cat": the key column is categorical with a category that never occurs
     t = {"rows": rows, "gkind": draw(st.sampled_from(["int", "int", "str"] +
                                                      (["cat"] if categorical else [])))}
+    if nan_keys and t["gkind"] in ("int", "str") and draw(st.integers(0, 3)) == 0:
+        t["gnan"] = True    # key 3 is a missing key (NaN / None): pandas' groupby leaves such rows out
     if time_index:
         # non-decreasing timestamps on a 1 s grid, duplicates allowed
         steps = [draw(st.integers(0, 3)) for _ in range(n)]
@@ -46,6 +49,9 @@ def frame(t, lo=0, hi=None):
         g = ["abcd"[k] for k in g]
     gdtype = {"int": "int64", "str": "object",
               "cat": pd.CategoricalDtype(categories=list("abcde"))}[t["gkind"]]
+    if t.get("gnan"):
+        g = [None if k in (3, "d") else k for k in g]
+        gdtype = "float64" if t["gkind"] == "int" else "object"
     df = pd.DataFrame({"x": pd.Series(x, dtype="float64"), "y": pd.Series(y, dtype="int64"),
                        "g": pd.Series(g, dtype=gdtype)})
     if "ts" in t:
@@ -66,7 +72,7 @@ def batches(t, cuts):
 
 
 def example_frame(t, kind="two"):
-    ex = {"rows": [[1.0, 1, 0], [2.0, 2, 1]], "gkind": t["gkind"]}
+    ex = {"rows": [[1.0, 1, 0], [2.0, 2, 1]], "gkind": t["gkind"], "gnan": t.get("gnan")}
     if "ts" in t:
         ex["ts"] = [0, 1]
         ex["ts_unit"] = t.get("ts_unit", "ns")
